@@ -36,6 +36,9 @@ def definitions(rng, sz):
             did += 1
     defs.append(IG.selfref_def(did)); did += 1
     defs.append(IG.selfref_def(did)); did += 1          # once with, once without the decoys (they go by parity)
+    # more variants than a byte counts: 300 unit variants (10% disabled), 270 mixed ones
+    defs.append(IG.shape(rng, did, 300, [1 if rng.random() < 0.1 else 0 for _ in range(300)], kinds="unit")); did += 1
+    defs.append(IG.shape(rng, did, 270, [1 if rng.random() < 0.1 else 0 for _ in range(270)])); did += 1
     for k in range(sz["sampled"]):
         n = rng.randint(sz["full_masks"] + 1, 12)
         mask = [1 if rng.random() < 0.35 else 0 for _ in range(n)]
